@@ -31,7 +31,9 @@ def cases(draw, tier="quick"):
                           mdp_specs("discounted", max_states=6 if big else 5, extreme=True),
                           mdp_specs("negative", max_states=6 if big else 5)))
     pol = draw(policy_specs(spec))
-    return {"mdp": spec, "policy": pol, "perm_seed": draw(st.integers(0, 5))}
+    return {"mdp": spec, "policy": pol, "perm_seed": draw(st.integers(0, 5)),
+            # the number type of the policy table (a hand-written 0/1 or True/False table, a single-precision one)
+            "policy_dtype": draw(st.sampled_from([None, None, "int", "bool", "float32"]))}
 
 
 def large_cases(tier):
@@ -46,7 +48,9 @@ def prop_eval(case, ctx):
     spec, polspec = case["mdp"], case["policy"]
     mdp, view = build_mdp(spec)
     ref = RefMDP(spec)
-    policy = build_tabular_policy(spec, polspec, mdp, view)
+    policy = build_tabular_policy(spec, polspec, mdp, view, dtype=case.get("policy_dtype"))
+    if np.asarray(policy).dtype != np.float64:
+        ctx.event("policy_table_dtype=" + str(np.asarray(policy).dtype))
     ps = case.get("perm_seed", 0)
     if ps:
         # the same policy with its own column / row order (as from_dict or a dict-version planner would give)
@@ -58,7 +62,7 @@ def prop_eval(case, ctx):
         rr.shuffle(sl2)
         rr.shuffle(al2)
         arr = np.array(policy)
-        data = np.array([[arr[sl.index(s), al.index(a)] for a in al2] for s in sl2])
+        data = np.array([[arr[sl.index(s), al.index(a)] for a in al2] for s in sl2], dtype=arr.dtype)
         policy = TabularPolicy.from_state_action_lists(state_list=sl2, action_list=al2, data=data)
         ctx.event("policy_with_own_order")
     res = ctx.call("C02.raises", policy.evaluate_on, mdp)
